@@ -67,6 +67,9 @@ struct Choices {
     bool special_shapes = true;  // RECTANGLE / TRAPEZOID / CTRAPEZOID / CIRCLE where the polygon qualifies
     bool general_reps = false;   // prefer the general repetition / point list forms
     double unit_form = 0;        // encoding family for reals: 0 natural, 1 ratio where possible, 2 float64
+    bool shuffle = true;         // seeded order of the elements inside a cell (else model order)
+    bool cellname_props = false; // cell properties on the CELLNAME record (only with the table after the cells)
+    bool layernames = false;     // LAYERNAME records (legal noise for a reader that does not use them)
 };
 
 Choices random_choices(sim::Rng& r);
